@@ -410,7 +410,7 @@ theorem markdownTok_strs (t : RT) (toks : List RTok) (h : render markdownTok t =
     simp only [markdownTok] at hm
     split at hm
     · cases hm
-    · simp only [List.mem_append, List.mem_singleton, List.mem_cons, List.not_mem_nil, or_false,
+    · simp only [List.mem_append, List.mem_cons, List.not_mem_nil, or_false,
         reduceCtorEq, false_or] at hm
       exact hfx s o hm
   · intro u e f x hfx s o hm
@@ -418,11 +418,11 @@ theorem markdownTok_strs (t : RT) (toks : List RTok) (h : render markdownTok t =
     split at hm
     · cases hm
     · split at hm <;>
-      · simp only [List.mem_append, List.mem_singleton, List.mem_cons, List.not_mem_nil, or_false,
+      · simp only [List.mem_append, List.mem_cons, List.not_mem_nil, or_false,
           reduceCtorEq, false_or] at hm
         exact hfx s o hm
   · intro f x hfx s o hm
-    simp only [markdownTok, List.mem_append, List.mem_singleton, List.mem_cons, List.not_mem_nil, or_false,
+    simp only [markdownTok, List.mem_append, List.mem_cons, List.not_mem_nil, or_false,
       reduceCtorEq, false_or] at hm
     exact hfx s o hm
 
